@@ -349,10 +349,10 @@ class Judge:
                 expand = False
             elif kind == "del" and ret == 0 and legacy:
                 before = self.expected_obs(st_before)
-                gone = [NAMES[i].decode() for i in range(NN) if (before[i][0], before[i][1]) != (obs[i][0], obs[i][1])]
+                gone = [NAMES[i].decode() for i in range(NN) if before[i][0] == 1 and obs[i][0] == 0]
                 _viol(part, KEY_DELETE, "history %s: mj_deleteFileVFS of a name that is absent (never added or already deleted; "
-                      "contains==0, and adding it as a buffer would succeed) returned 0 instead of -1 and changed the presence of "
-                      "%r, added as a buffer under another name" % (hist_str(h), gone), rep)
+                      "contains==0, and adding it as a buffer would succeed) returned 0 instead of -1 and removed %r, added as a "
+                      "buffer under another name" % (hist_str(h), gone), rep)
                 expand = False
             else:
                 _viol(part, "vfs: %s returns %r where the set model requires %s" % (
@@ -574,9 +574,13 @@ def replay(ctx, path):
     lib = _setup()
     _G["root"] = make_fixture()
     try:
+        learned = core.Part()
+        cls, look, irr = learn_classes(lib, learned)
         part = core.Part()
-        cls, look, irr = learn_classes(lib, part)
-        if "ops" in rec and not rec.get("missing"):
+        if rec.get("missing"):
+            # the depth-1 history with a disk file that does not exist is part of learn_classes
+            part["violations"] = [v for v in learned["violations"] if v["key"] == KEY_MISSING]
+        else:
             ops = [tuple(o) for o in rec["ops"]]
             v = Vfs(lib)
             for op in ops:
